@@ -18,7 +18,8 @@ func init() {
 			"(1) Boundary matrix: file x kind x position (attr, kwarg, dict argument, set_field, nested dict, whole list/map, list literal, setindex, append, map value/key by setkey/assignment/kwarg, map lookup) x route (Starlark source / direct Go API) x 93 pool values (min-1, min, max, max+1, 2^64, 2^200, None, bool, floats, str incl. invalid UTF-8, bytes, containers, messages, enum values, descriptors, views); " +
 			"each cell is judged against a per-kind range table (protobuf language guide): accept/reject verdict, stored content (proto.Equal with an independently built message), read-back through the wrapper, binary and text round trip, the same operation on the frozen message, reflective type/range walk; a cell is distinct by (file, kind, position, route, value). " +
 			"(2) View assignment m.r = m.r / o.r = m.r for every kind; live repeated/map views of a different enum/message type or scalar kind as pool values at whole-field positions (attr, kwarg, set_field); element wrappers captured in plain Starlark containers (dict(map), dict.update, .items(), list/tuple/sorted/reversed(repeated), comprehensions, loop variables, Go Items/Entries/Elements/Get) and mutated after Freeze(); decoded messages with undeclared enum numbers; corrupted encodings; extension fields; a cyclic message in a helper process. " +
-			"(3) Random histories (4..12 operations over <= 4 message variables and stored repeated/map views: construct, scalar/sub/repeated/map assignment, aliasing o.f = m.f, shallow copy M(m), element operations, stored views, plain-container captures and mutation through their elements, cross-type view assignment, iterate-and-mutate, re-encode, Freeze() directly or by finishing a module) with a snapshot-before/after oracle for every frozen message and a shadow model (storage-node identity, provenance of aliasing edges, flag groups) that names the shape; a history is distinct by its operation-kind sequence and counts as non-trivial when a mutating operation follows a freeze.",
+			"(3) Random histories (4..12 operations over <= 4 message variables and stored repeated/map views: construct, scalar/sub/repeated/map assignment, aliasing o.f = m.f, shallow copy M(m), element operations, stored views, plain-container captures and mutation through their elements, cross-type view assignment, iterate-and-mutate, re-encode, Freeze() directly or by finishing a module) with a snapshot-before/after oracle for every frozen message and a shadow model (storage-node identity, provenance of aliasing edges, flag groups) that names the shape; a history is distinct by its operation-kind sequence and counts as non-trivial when a mutating operation follows a freeze. " +
+			"(4) Alias-view sequences (6..14 steps): one message reached through 2..3 long-lived wrappers and fresh ones by different routes (the original value after it was assigned into a parent by kwarg/dict/attribute/set_field/append/setindex/setkey, p.f_rec, p.r_rec[i], p.mv_rec[k], one level deeper, through a shallow copy, after decoding; each route confirmed by storage identity), interleaving through a random wrapper: read-and-keep a repeated/map view, whole-field assignment (list, tuple, dict, empty, None, kept view, another wrapper's view, None-then-assign; attribute or set_field), element writes through a fresh or a kept view, scalar assignment, re-wrap; after every step every wrapper must read, for 11 fields, exactly the content of a reference model of the message, as must unmarshal(marshal(w)) in binary and text form and every kept view that is still the field's storage; a sequence is distinct by (file, set-up, operation-kind sequence) and non-trivial when a field's storage object is replaced through another wrapper than one that read it.",
 		Assumptions: []string{
 			"google.golang.org/protobuf (dynamicpb, proto.Equal, deterministic Marshal, protodesc) is the trusted reference for storage identity, equality and encoding",
 			"per-kind ranges are those of the protobuf language guide (int32/sint32/sfixed32 -2^31..2^31-1, uint32/fixed32 0..2^32-1, int64/sint64/sfixed64 -2^63..2^63-1, uint64/fixed64 0..2^64-1); bool accepts only bool; enum accepts a declared number, a declared name or a value of the same enum; message accepts a message of the same descriptor or a dict of its fields; None unsets a singular/repeated/map field and is rejected as an element, key or map value (lib/proto setField doc)",
@@ -27,6 +28,7 @@ func init() {
 			"a failed assignment may leave a repeated/map field partially updated (the property only requires type/range validity after a failure)",
 			"round trips are required for ordinary fields; extension fields are only checked for panics, verdict and read-back (proto.unmarshal has no extension resolver)",
 			"mutation during iteration is not judged here (C06); histories only require no panic and no change of frozen messages",
+			"alias-view sequences: which wrappers denote one message is taken from storage identity (lib/proto aliases a message assigned into a field, element or map value, and the sub-messages of a shallow copy); a kept view of a storage object that has since been replaced (map field reassigned, field set to None) is not judged, and a rejected element write (frozen default view of an empty field) must change nothing",
 		},
 		Run:         run,
 		MinDistinct: 1000,
@@ -41,6 +43,9 @@ func init() {
 			}
 			if counters["roundtrips_binary"] == 0 || counters["roundtrips_text"] == 0 || counters["invariant_walks"] == 0 {
 				return "round trip / walk never ran", true
+			}
+			if counters["alias_wrapper_reads_compared"] == 0 || counters["alias_roundtrips_compared"] == 0 || counters["alias_storage_replaced_after_read_through_other_wrapper"] == 0 {
+				return "alias-view sequences never compared wrappers after a storage replacement", true
 			}
 			return "", false
 		},
@@ -121,5 +126,13 @@ func run(c *driver.Ctx) {
 			continue
 		}
 		e.runHistory(e.schema.files[i%2], c.Rand(), 12)
+	}
+	// (4) alias-view sequences: several wrappers of one message
+	na := c.Pick(1_200, 150_000)
+	for i := 0; i < na; i++ {
+		if !c.Take() {
+			continue
+		}
+		e.runAliasViews(e.schema.files[i%2], c.Rand())
 	}
 }
